@@ -41,3 +41,18 @@ pub fn id<T>(t: T) -> T {
 pub fn ok<T>(t: T) -> Result<T> {
     Ok(t)
 }
+
+pub fn attrs_count(attrs: Vec<syn::Attribute>) -> Result<usize> {
+    Ok(attrs.len())
+}
+pub fn attrs_fail(_attrs: Vec<syn::Attribute>) -> Result<usize> {
+    Err(Error::custom("attrs_fail"))
+}
+pub fn data_kind(d: &syn::Data) -> Result<String> {
+    Ok(match d {
+        syn::Data::Struct(_) => "struct",
+        syn::Data::Enum(_) => "enum",
+        syn::Data::Union(_) => "union",
+    }
+    .to_string())
+}
